@@ -29,12 +29,14 @@ def containers(v, named=False):
     return [
         D.Bin(2, 0, 4, "x", v, nm=nm("binx")),
         D.Bin(4, 0, 4, "x", v, nm=nm("bin4")),
+        D.Bin(1, 0, 4, "x", v),            # (a single bin)
         D.Bin(3, -1, 2, "x", v),
         D.SparselyBin(2, "x", v, nm=nm("spx")),
         D.SparselyBin(2, "x", v, origin=1),
         D.SparselyBin(F(1, 2), "x", v),
         D.CentrallyBin([0, 2, 4], "x", v, nm=nm("cbx")),
         D.IrregularlyBin([1, 3], "x", v, nm=nm("irx")),
+        D.IrregularlyBin([1, 1, 3], "x", v),     # (a repeated threshold: an empty interval)
         D.Stack([1, 3], "x", v, nm=nm("stx")),
         D.Stack([3, 1, 2], "x", v),        # (the thresholds of a Stack need not be sorted)
         D.Categorize("c", v, nm=nm("catc")),
